@@ -373,10 +373,10 @@ func genLZBoundary(n int, seed uint64) []byte {
 
 var shapeNames = []string{"text", "crlf", "xml", "utf8-2", "utf8-3", "utf8-4", "utf8-wide", "utf8-dense", "dna", "dna-mixed", "base64", "hex", "numeric",
 	"elf", "pe", "wav8m", "wav16s", "bmp", "runs", "sparse", "skew1", "skew3", "const", "random", "zipmagic", "period3", "period255", "period65535",
-	"rot256", "fib", "raredom", "lzbound", "mixed", "longlit", "allruns", "rarerun", "zipmagic-text", "crlf-records"}
+	"rot256", "fib", "raredom", "lzbound", "mixed", "longlit", "allruns", "rarerun", "zipmagic-text", "crlf-records", "sym4", "sym5", "sym16", "sym17", "wav24", "longrep", "gaps", "textwords", "crlf-cut"}
 
 // a smaller set for the expensive products
-var coreShapes = []string{"text", "utf8-3", "utf8-wide", "utf8-dense", "dna", "elf", "wav16s", "runs", "sparse", "skew3", "const", "random", "rot256", "lzbound", "period255", "mixed", "longlit", "allruns", "rarerun", "crlf-records"}
+var coreShapes = []string{"text", "utf8-3", "utf8-wide", "utf8-dense", "dna", "elf", "wav16s", "runs", "sparse", "skew3", "const", "random", "rot256", "lzbound", "period255", "mixed", "longlit", "allruns", "rarerun", "crlf-records", "crlf-cut"}
 
 // genAllRuns: runs of EVERY byte value (descending from 0xFF, so that the escape symbols of the
 // run-length family - 0xFB, 0xFE, 0xFF - come first), with run lengths cycling through the
@@ -538,6 +538,10 @@ func shape(name string, n int) []byte {
 		out := genText(n, seed, "\n")
 		copy(out, []byte{'P', 'K', 3, 4, 20, 0, 0, 0})
 		return out
+	case "crlf-cut":
+		// the same records, seen through a window that starts on an LF and (for lengths that are
+		// multiples of 64) ends on a CR: a block cut inside the line ends at both sides
+		return shape("crlf-records", n+64)[64:]
 	case "crlf-records":
 		// CR+LF text made of fixed-width records (64 bytes incl. CR LF) after a header line that is one
 		// byte longer: every CR sits at an offset = 63 (mod 64), so every block boundary at a multiple
@@ -559,6 +563,69 @@ func shape(name string, n int) []byte {
 		line(63)
 		for len(out) < n {
 			line(62)
+		}
+		return out[:n]
+	case "sym4", "sym5", "sym16", "sym17":
+		// exactly K distinct byte values (PACK's 2-bit / 4-bit modes switch at 4 and 16), skewed
+		k := map[string]int{"sym4": 4, "sym5": 5, "sym16": 16, "sym17": 17}[name]
+		r := newRng(seed)
+		out := make([]byte, n)
+		for i := range out {
+			v := r.intn(k)
+			if r.intn(3) > 0 {
+				v = r.intn(1 + k/3)
+			}
+			out[i] = byte(0x41 + v*3)
+		}
+		for i := 0; i < k && i < n; i++ {
+			out[(i*7919)%n] = byte(0x41 + i*3) // every value occurs
+		}
+		return out
+	case "wav24":
+		// 24-bit little-endian mono samples of a slow ramp + noise (stride 3: FSD/MM stride detection)
+		r := newRng(seed)
+		out := make([]byte, 0, n+3)
+		v := 0
+		for len(out) < n {
+			v += r.intn(2001) - 1000 + 37
+			out = append(out, byte(v), byte(v>>8), byte(v>>16))
+		}
+		return out[:n]
+	case "longrep":
+		// one symbol repeated far beyond 64K, then all 256 values, then the symbol 255 repeated
+		out := make([]byte, 0, n)
+		for i := 0; len(out) < n && i < n*6/10; i++ {
+			out = append(out, 0x55)
+		}
+		for i := 0; len(out) < n && i < 512; i++ {
+			out = append(out, byte(i))
+		}
+		for len(out) < n {
+			out = append(out, 0xFF)
+		}
+		return out
+	case "gaps":
+		// 140 distinct symbols with unused values between them (every other value from 1), skewed
+		r := newRng(seed)
+		out := make([]byte, n)
+		for i := range out {
+			v := r.intn(140)
+			if r.intn(4) > 0 {
+				v = r.intn(20)
+			}
+			out[i] = byte(1 + 2*v%255)
+		}
+		return out
+	case "textwords":
+		// words at the limits of the text codec: 1-2 letter words, very long words, digits, upper case,
+		// capitalised, bytes >= 0x80 inside words, the block may end inside a word
+		r := newRng(seed)
+		parts := []string{"a", "I", "of", "to", "THE", "The", "Zebra", "x9", "2024", "3.14159", "caf\xc3\xa9", "na\xefve", "\xff\xfe", "e-mail", "under_score", "don't",
+			strings.Repeat("pneumonoultramicroscopic", 3), strings.Repeat("Z", 40), "the", "and", "that", "with"}
+		out := make([]byte, 0, n+80)
+		for len(out) < n {
+			out = append(out, parts[r.intn(len(parts))]...)
+			out = append(out, " \n\t,."[r.intn(5)])
 		}
 		return out[:n]
 	case "longlit":
